@@ -295,6 +295,7 @@ func runL2Script(script []c18Op) (trace string, maxLeaving int, oracleUpdates in
 		panic(err)
 	}
 	hostHeight, hostGen := int64(5), 0
+	curSet := set
 	heldTs := int64(0)
 	var held sdk.Msg // an oracle update that sits in the mempool and is delivered later (or never)
 	// L1 timestamps of 2023 or of 2100, chosen by the script
@@ -350,6 +351,8 @@ func runL2Script(script []c18Op) (trace string, maxLeaving int, oracleUpdates in
 				if held != nil {
 					b.Deliver(held) // the mempool checks (simulates) the waiting oracle update again
 				}
+				// a light-client update of L1 seen in a transaction that does not make it into the block
+				_ = b.K.UpdateHostValidatorSet(b.Ctx, c15ClientID, hostHeight+1, curSet)
 				// the rest of the block executed ahead of time (optimistic execution, a proposal that is not
 				// the one that gets committed): end of block on the branch
 				_, _ = b.EndBlock()
@@ -421,6 +424,18 @@ func runL2Script(script []c18Op) (trace string, maxLeaving int, oracleUpdates in
 			emit(op, l2.Deliver(opchildtypes.NewMsgFinalizeTokenDeposit(exec.Str, users[0].Str, to, amount, seq, 7, bases[op.B%2], data)))
 		case "withdraw":
 			emit(op, l2.Deliver(opchildtypes.NewMsgInitiateTokenWithdrawal(users[op.A%4].Str, users[op.B%4].Str, coinOf(denoms[op.B%2], op.C%20+1))))
+		case "batch":
+			// an admin batch whose inner messages are signed by two different users: refused, with the same error everywhere
+			inner := []sdk.Msg{
+				banktypes.NewMsgSend(users[op.A%4].Addr, users[(op.A+1)%4].Addr, sdk.NewCoins(coinOf("stake", 1))),
+				banktypes.NewMsgSend(users[(op.A+2)%4].Addr, users[op.B%4].Addr, sdk.NewCoins(coinOf("stake", 1))),
+				banktypes.NewMsgSend(users[(op.A+3)%4].Addr, users[op.B%4].Addr, sdk.NewCoins(coinOf("stake", 1))),
+			}
+			m, err := opchildtypes.NewMsgExecuteMessages(admin.Str, inner)
+			if err != nil {
+				panic(err)
+			}
+			emit(op, l2.Deliver(m))
 		case "badinfo":
 			// bridge info whose batch chain type is undefined, sent by anybody: refused, with the same error everywhere
 			cfg := henv.DefaultBridgeConfig(exec.Str, exec.Str, time.Hour)
@@ -441,7 +456,9 @@ func runL2Script(script []c18Op) (trace string, maxLeaving int, oracleUpdates in
 				set.Validators = append(set.Validators, &cmtproto.Validator{Address: hostVals[i].addr, PubKey: pk, VotingPower: hostVals[i].power})
 			}
 			err := l2.K.UpdateHostValidatorSet(l2.Ctx, c15ClientID, hostHeight, set)
-			fmt.Fprintf(&sb, "%s => L1 validator set of height %d registered: %v\n", op, hostHeight, err)
+			curSet = set
+			h, _ := l2.K.HostValidatorStore.GetLastHeight(l2.Ctx)
+			fmt.Fprintf(&sb, "%s => L1 validator set of height %d registered: %v (recorded height now %d)\n", op, hostHeight, err, h)
 		case "oracle-late":
 			if held != nil {
 				r := l2.Deliver(held)
@@ -533,7 +550,7 @@ func genL2Script(rt *rapid.T) []c18Op {
 	var s []c18Op
 	n := rapid.IntRange(15, 50).Draw(rt, "len")
 	for i := 0; i < n; i++ {
-		k := drawWeighted(rt, "op", []weighted{{"add", 5}, {"remove", 4}, {"block", 5}, {"deposit", 5}, {"withdraw", 3}, {"oracle", 3}, {"plan", 2}, {"params", 1}, {"hostvals", 1}, {"oracle-late", 3}, {"badinfo", 1}})
+		k := drawWeighted(rt, "op", []weighted{{"add", 5}, {"remove", 4}, {"block", 5}, {"deposit", 5}, {"withdraw", 3}, {"oracle", 3}, {"plan", 2}, {"params", 1}, {"hostvals", 1}, {"oracle-late", 3}, {"badinfo", 1}, {"batch", 1}})
 		op := c18Op{Kind: k, A: rapid.IntRange(0, 11).Draw(rt, "a"), B: rapid.IntRange(0, 11).Draw(rt, "b"), C: int64(rapid.IntRange(0, 1000).Draw(rt, "c"))}
 		if k == "oracle" && rapid.IntRange(0, 2).Draw(rt, "hold") == 0 {
 			op.S = "hold"
